@@ -172,6 +172,10 @@ func (b *built) run(e interpreter.Engine) string {
 }
 
 func checkEngine(ctx *pbt.Ctx, c EngCase) error {
+	if skipAbandoned(ctx) {
+		return nil
+	}
+	var bt8 beat
 	if c.Procs < 1 || c.Procs > 64 || c.Goroutines < 1 || c.Goroutines > 64 || len(c.Jobs) == 0 {
 		ctx.Discard("outside domain")
 		return nil
@@ -212,6 +216,7 @@ func checkEngine(ctx *pbt.Ctx, c EngCase) error {
 					}()
 					conc[i] = bs[i].run(eng)
 				}()
+				bt8.tick()
 				if j.Yield {
 					runtime.Gosched()
 				}
@@ -219,7 +224,11 @@ func checkEngine(ctx *pbt.Ctx, c EngCase) error {
 		}(g)
 	}
 	close(start)
-	wg.Wait()
+	done := make(chan struct{})
+	go func() { wg.Wait(); close(done) }()
+	if err := bounded(done, &bt8, fmt.Sprintf("%d goroutines validating %d jobs on one engine (GOMAXPROCS %d)", c.Goroutines, len(c.Jobs), c.Procs)); err != nil {
+		return err
+	}
 	nOK, nErr := 0, 0
 	busy := map[int]bool{}
 	for i := range bs {
